@@ -84,6 +84,24 @@ def np_max(ex, st, args, kw, node):
     return c.at(k)
 
 
+def np_min(ex, st, args, kw, node):
+    """minimum of a 1-D array without NaN tracking (an index k of a minimal element)"""
+    c = _content(st, args[0])
+    if c is None:
+        return as_real(args[0])
+    if c.nans is not None:
+        raise Unsupported('np.min of a NaN-tracked array')
+    k, j = fresh('argmin', I), fresh('j', I)
+    st.assume(z3.Implies(c.n > 0, z3.And(k >= 0, k < c.n)))
+    st.assume(z3.ForAll([j], z3.Implies(z3.And(j >= 0, j < c.n), c.vals[j] >= c.vals[k])))
+    return c.at(k)
+
+
+def np_deg2rad(ex, st, args, kw, node):
+    x = as_real(args[0])
+    return NR(x.val * z3.Real('pi') / 180, x.nan)
+
+
 def np_array(ex, st, args, kw, node):
     v = args[0]
     c = _content(st, v)
@@ -146,6 +164,32 @@ def np_zeros(ex, st, args, kw, node):
 def np_ones(ex, st, args, kw, node):
     n = args[0]
     return st.new_ref(ArrC(z3.K(I, z3.RealVal(1)), to_z3(n) if not isinstance(n, int) else z3.IntVal(n), None), 'ones')
+
+
+def np_concatenate(ex, st, args, kw, node):
+    """np.concatenate((a, b, ...)) of 1-D arrays: the parts one after the other"""
+    parts = args[0]
+    if isinstance(parts, Ref) and isinstance(st.content(parts), ListC):
+        parts = tuple(st.content(parts).items)
+    if not isinstance(parts, tuple) or not parts:
+        raise Unsupported('np.concatenate of a symbolic collection')
+    cs = [_content(st, p_) for p_ in parts]
+    if any(c is None or c.nans is not None for c in cs):
+        raise Unsupported('np.concatenate operands')
+    k = fresh('k', I)
+    off = z3.IntVal(0)
+    total = z3.IntVal(0)
+    for c in cs:
+        total = total + c.n
+    expr = cs[-1].vals[k - (total - cs[-1].n)]
+    offs = []
+    for c in cs:
+        offs.append(off)
+        off = off + c.n
+    for c, o in reversed(list(zip(cs[:-1], offs[:-1]))):
+        expr = z3.If(k < o + c.n, c.vals[k - o], expr)
+    kind = cs[0].kind if all(c.kind == cs[0].kind for c in cs) else None
+    return st.new_ref(ArrC(z3.Lambda([k], expr), total, None, kind=kind), 'concatenate')
 
 
 def np_zeros_like(ex, st, args, kw, node):
@@ -239,8 +283,8 @@ def value_any(ex, st, args, kw, node):
 
 
 NUMPY = {
-    'np.abs': np_abs, 'np.absolute': np_abs, 'np.isnan': np_isnan, 'np.argmax': np_argmax, 'np.max': np_max,
-    'np.array': np_array, 'np.ravel': np_ravel, 'np.put': np_put, 'np.zeros': np_zeros, 'np.ones': np_ones, 'np.zeros_like': np_zeros_like,
+    'np.abs': np_abs, 'np.absolute': np_abs, 'np.isnan': np_isnan, 'np.argmax': np_argmax, 'np.max': np_max, 'np.min': np_min, 'np.deg2rad': np_deg2rad,
+    'np.array': np_array, 'np.ravel': np_ravel, 'np.put': np_put, 'np.zeros': np_zeros, 'np.ones': np_ones, 'np.concatenate': np_concatenate, 'np.zeros_like': np_zeros_like,
     'np.ones_like': np_ones_like, 'np.any': np_any, 'np.all': np_all, 'np.arange': np_arange,
     'np.less': _elementwise_cmp(ast.Lt()), 'np.less_equal': _elementwise_cmp(ast.LtE()),
     'np.greater': _elementwise_cmp(ast.Gt()), 'np.greater_equal': _elementwise_cmp(ast.GtE()),
@@ -289,4 +333,13 @@ def np_isclose(ex, st, args, kw, node):
     return z3.And(z3.Not(a.nanz()), z3.Not(b.nanz()), absd <= atol + rtol * absb)
 
 
+def np_array_equal(ex, st, args, kw, node):
+    ca, cb = _content(st, args[0]), _content(st, args[1])
+    if ca is None or cb is None or ca.nans is not None or cb.nans is not None:
+        return fresh('array_equal', Bo)      # an operand the contract does not describe: arbitrary
+    k = fresh('k', I)
+    return z3.And(ca.n == cb.n, z3.ForAll([k], z3.Implies(z3.And(k >= 0, k < ca.n), ca.vals[k] == cb.vals[k])))
+
+
+NUMPY['np.array_equal'] = np_array_equal
 NUMPY['np.isclose'] = np_isclose
